@@ -101,6 +101,15 @@ CLAIMED['C10'] = dict(
     technique="TLA+ scheduling model checked by TLC; every TLC behaviour replayed into the code through a schedule-driven fake pool",
     design_ref="DESIGN.md §5.6, §6 C10")
 
+CLAIMED['C11'] = dict(
+    text="Design: TLC checks on specs/BaseStage.tla that the quantile search commutes with strictly increasing re-encodings of the values (Inv_C11_Quantiles, every sorted sample of <= 6 (8) "
+         "values x thresholds x 3 monotone maps); the carving model only sees counts per ordered bucket. Binding (code->spec): each case fits a real carver on a seeded sample and on its "
+         "re-encodings (row permutation with index, index relabelling, exact affine maps checked with Fraction, order-preserving category renamings); TLC (ReencodeTrace.tla) checks that the "
+         "abstract input is unchanged, that the kept sets are equal and that the row partitions induced by transform are equal as equivalence relations.",
+    note="Trusted: TLC, drivers/reencode.py (re-encoding generators, rank projection). Sampled; exact affine maps restricted to dyadic factors.",
+    technique="TLA+ invariance property model-checked by TLC + TLC judging of paired real executions",
+    design_ref="DESIGN.md §6 C11")
+
 NOT_YET = "check not built yet in this round (planned, see DESIGN.md §9); no claim is made"
 
 checks, na = [], []
